@@ -121,7 +121,9 @@ class CFG:
                 outs = self.block(st.finalbody, outs, brk, cont)
             return outs
         if isinstance(st, (ast.FunctionDef, ast.ClassDef, ast.AsyncFunctionDef)):
-            return ins
+            n = self.new('stmt', stmt=st)      # binds its name
+            self.link(ins, n)
+            return [(None, n)]
         if isinstance(st, ast.With):
             n = self.new('stmt', stmt=st)
             self.link(ins, n)
